@@ -150,7 +150,8 @@ var positions = []string{"only", "first", "middle", "last", "after-writers"}
 
 const (
 	neighbourA = "A[PEX$gB[P]]"
-	neighbourC = "A[DEBf[P]X]"
+	// after T: a try-wrapped cross-contract call that succeeds, a payment callback, a plain call
+	neighbourC = "A[DET{Bf[P]}{}$gC[E]Cf[P]X]"
 )
 
 func cloneTx(tx *transaction.Transaction) *transaction.Transaction {
@@ -322,7 +323,7 @@ func (ba *batomic) run(bc bcase) (what, detail []string, err error) {
 			return nil, nil, err
 		}
 	}
-	if bc.Pos == "middle" || bc.Pos == "first" {
+	if bc.Pos == "middle" || bc.Pos == "first" || (bc.Pos == "after-writers" && !bc.Tpl.Halting) {
 		if cc, err = r1.n.MakeTx(w.script(mustParse(neighbourC)), s3, chainx.SysFee(sysFee)); err != nil {
 			return nil, nil, err
 		}
